@@ -7,6 +7,7 @@ pub mod crypto {
     use crate::builder::Algorithm;
     use crate::format::schema;
     use crate::format::ThirdPartyVerificationMode;
+    use crate::zeroize;
     use super::error;
     use crate::spec::*;
     broadcast use {crate::error::qm_axioms, crate::verif_std::verif_std_axioms};
@@ -36,9 +37,13 @@ pub mod crypto {
             pub closed spec fn spec_verify(self, msg: Seq<u8>, sig: Seq<u8>) -> bool {
                 sig.len() == 64 && strict_ok(self.0, msg, sig)
             }
+            pub closed spec fn spec_decodes(self, bytes: Seq<u8>) -> bool { vk_bytes(self.0) == bytes }
             pub broadcast proof fn lemma_bytes_len(self) ensures #[trigger] self.spec_bytes().len() == 32 {}
             pub broadcast proof fn lemma_bytes_inj(self, o: PublicKey)
                 ensures #[trigger] self.spec_bytes() == #[trigger] o.spec_bytes() ==> self == o {}
+            pub proof fn lemma_decodes(self, o: PublicKey, b: Seq<u8>)
+                ensures self.spec_decodes(self.spec_bytes()),
+                        self.spec_decodes(b) && o.spec_decodes(b) ==> self == o {}
 
             //@extract biscuit-auth/src/crypto/ed25519.rs :: impl PublicKey :: fn to_bytes
             //@ ensures bytes: r@ == self.spec_bytes()
@@ -46,7 +51,7 @@ pub mod crypto {
 
             //@extract biscuit-auth/src/crypto/ed25519.rs :: impl PublicKey :: fn from_bytes
             //@ ensures len: r is Ok ==> bytes@.len() == 32
-            //@ ensures bytes: r is Ok ==> r->Ok_0.spec_bytes() == bytes@
+            //@ ensures bytes: r is Ok ==> r->Ok_0.spec_bytes() == bytes@ && r->Ok_0.spec_decodes(bytes@)
             //@ ensures size_err: bytes@.len() != 32 ==> r == Err::<_, error::Format>(Format::InvalidKeySize(bytes.len()))
             //@end
 
@@ -142,16 +147,22 @@ pub mod crypto {
             pub closed spec fn spec_verify(self, msg: Seq<u8>, sig: Seq<u8>) -> bool {
                 exists|s: p256::ecdsa::Signature| der(s) == sig && ecdsa_ok(self.0, msg, s)
             }
+            pub closed spec fn spec_decodes(self, bytes: Seq<u8>) -> bool { p256::ecdsa::sec1_decodes(bytes, self.0) }
             pub broadcast proof fn lemma_bytes_len(self) ensures #[trigger] self.spec_bytes().len() == 33 {}
             pub broadcast proof fn lemma_bytes_inj(self, o: PublicKey)
                 ensures #[trigger] self.spec_bytes() == #[trigger] o.spec_bytes() ==> self == o {}
+            pub proof fn lemma_decodes(self, o: PublicKey, b: Seq<u8>)
+                ensures self.spec_decodes(self.spec_bytes()),
+                        self.spec_decodes(b) && o.spec_decodes(b) ==> self == o
+            { p256::ecdsa::ax_sec1_function(b, self.0, o.0); p256::ecdsa::ax_sec1_total(self.0); }
 
             //@extract biscuit-auth/src/crypto/p256.rs :: impl PublicKey :: fn to_bytes
             //@ ensures bytes: r@ == self.spec_bytes()
             //@ external_body
             //@end
             //@extract biscuit-auth/src/crypto/p256.rs :: impl PublicKey :: fn from_bytes
-            //@ ensures bytes: r is Ok && bytes@.len() == 33 ==> r->Ok_0.spec_bytes() == bytes@
+            //@ ensures bytes: r is Ok ==> r->Ok_0.spec_decodes(bytes@)
+            //@ ensures compressed: r is Ok && bytes@.len() == 33 ==> r->Ok_0.spec_bytes() == bytes@
             //@end
             //@extract biscuit-auth/src/crypto/p256.rs :: impl PublicKey :: fn verify_signature
             //@ ensures ecdsa: r is Ok ==> self.spec_verify(data@, signature.0@)
@@ -268,6 +279,14 @@ pub mod crypto {
         //@end
     }
     impl PrivateKey {
+        //@extract biscuit-auth/src/crypto/mod.rs :: impl PrivateKey :: fn to_bytes
+        //@ ensures bytes: r.inner@ == sk_bytes_of(*self)
+        //@end
+        //@extract biscuit-auth/src/crypto/mod.rs :: impl PrivateKey :: fn from_bytes
+        //@ ensures bytes: r is Ok ==> sk_bytes_of(r->Ok_0) == bytes@
+        //@ ensures alg: r is Ok ==> (algorithm is Ed25519 <==> r->Ok_0 is Ed25519)
+        //@ ensures len: r is Ok ==> bytes@.len() == 32
+        //@end
         //@extract biscuit-auth/src/crypto/mod.rs :: impl PrivateKey :: fn public
         //@ ensures public: r == pk_of(*self)
         //@end
@@ -278,6 +297,12 @@ pub mod crypto {
     impl PublicKey {
         //@extract biscuit-auth/src/crypto/mod.rs :: impl PublicKey :: fn to_bytes
         //@ ensures bytes: r@ == pk_bytes(*self)
+        //@end
+        //@extract biscuit-auth/src/crypto/mod.rs :: impl PublicKey :: fn from_proto
+        //@ ensures rel: r is Ok ==> pk_proto_rel(*key, r->Ok_0)
+        //@end
+        //@extract biscuit-auth/src/crypto/mod.rs :: impl PublicKey :: fn to_proto
+        //@ ensures exact: r.algorithm == alg_code(*self) && r.key@ == pk_bytes(*self)
         //@end
         //@extract biscuit-auth/src/crypto/mod.rs :: impl PublicKey :: fn verify_signature
         //@ ensures sig_ok: r is Ok ==> sig_ok(*self, data@, signature.0@)
